@@ -1,5 +1,7 @@
 import TwistedProps.C15.Stream
 import TwistedProps.C15.Frozen
+import TwistedProps.C15.Liveness
+import TwistedProps.C15.Written
 /-!
 C15 — every reactor delivers TCP byte streams intact and reports loss exactly once.
 
@@ -24,20 +26,38 @@ Proved at full strength (safety):
   * `no_data_after_connectionLost` after connectionLost neither dataReceived nor a second
                                    connectionLost reaches the protocol
 
-PARTIAL (`…_partial`): the *liveness / clean-close* half of the statement —
-
-    for every schedule that follows the one-closer discipline, when the system comes to rest
-    (`Sys.quiescent`) after loseConnection / half-close, both `lost` lists are exactly `[done]` and
-    `b.received = a.accepted` (resp. `[aborted]` on the aborting side, exactly one reason on the other)
-
-— is NOT proved in Lean.  What is proved towards it: `done_from_doWrite_only_after_flush_partial`
-(doWrite reports CONNECTION_DONE only when loseConnection was requested and this call emptied the
-buffers, i.e. with `stream_accounting` every accepted byte has been handed to the kernel).  The rest
-is left to the correspondence: the orderly/abort templates of `harness/corr/C15.py` carry exactly this
-expectation in their oracle, on the real code over the fake kernel (thousands of schedules per run) and
-on real loopback sockets under four reactors.  Missing for a proof: the cross-endpoint invariants (no
-reset is ever generated under the discipline; FIN is only sent after the flush; the peer closes only
-after EOF; registration invariants "pending bytes ⇒ writer registered") and a progress measure.
+Proved at full strength (liveness / clean close), over every schedule that follows the ONE-CLOSER DISCIPLINE
+(`pre ++ [close operation of side w] ++ post`: before the close only side `w` writes, both sides may
+pause/resume, any readiness reports / partial sizes / delayed calls (`preEv w`); after it only readiness reports
+and delayed calls with arbitrary parameters (`noise`); the other side is reading when the close is issued; its
+protocol, if IHalfCloseableProtocol, reacts to readConnectionLost by loseConnection (`closeOk`) — for a
+half-close by writing a reply and then loseConnection (`replyOk`)), kernel parameters > 0, either side closing:
+  * `discipline_invariants_lose/_half`  the cross-endpoint invariants in every reachable state: no RST is ever
+                                   generated; a FIN is sent only after the write buffers were flushed; the peer's
+                                   socket closes only after EOF; nothing is discarded (`sent = received ++ queue`
+                                   exactly, both directions); pending bytes ⇒ writer registered
+  * `writer_registered_before_close`    pending bytes ⇒ writer registered, before any close operation
+  * `loseConnection_clean_close`   runFair with fuel ≥ `mu` (the progress measure) ends QUIESCENT with
+                                   `lost = [ConnectionDone]` on both sides and `received = accepted` both ways
+  * `halfClose_clean_close`        the same after loseWriteConnection (peer replies, then closes; the initiator
+                                   closes when it sees EOF)
+  * `abortConnection_close`        runFair ends quiescent with `[ConnectionAborted]` on the aborting side and
+                                   exactly one reason (`ConnectionLost`) on the other; the prefix property is
+                                   `peer_receives_prefix_of_written`
+  * `…_at_rest`                    the same conclusions in ANY quiescent state reached by a disciplined schedule
+                                   (not only by fair rounds)
+  * `fair_round_decreases_measure` the progress measure itself: a fair round from a non-quiescent disciplined
+                                   state strictly decreases `mu` = Σ 2·pending + queued + [writing] +
+                                   [reading]·(3+2·reply) + [abort call pending]
+  * `closer_accepted_is_written`   the closer's `accepted` is exactly the concatenation of the bytes the schedule's
+                                   write()/writeSequence() calls passed (`written w pre`); a peer that does not
+                                   write from readConnectionLost accepted nothing — so after loseConnection the
+                                   reader holds exactly `written w pre` (`loseConnection_delivers_written`), and
+                                   after a half-close the peer holds `written w pre` (`halfClose_delivers_written`)
+  * `done_from_doWrite_only_after_flush`  doWrite reports CONNECTION_DONE only when loseConnection was requested
+                                   and this call emptied the buffers
+Nothing of the statement is left to the correspondence alone; what the model's kernel/poller assume about Linux
+TCP and the four doIteration loops is tested by the real-socket half of `harness/corr/C15.py`.
 -/
 namespace TwistedProps.C15
 open Twisted.Transport.Tcp
@@ -118,13 +138,207 @@ theorem no_data_after_connectionLost (p : Params) (ha hb : Bool) (ra rb : List A
     have := frozenAt_run .B s1.b.received s1.b.lost evs2 s1 ⟨hs, rfl, rfl⟩
     exact ⟨this.2.1, this.2.2⟩
 
-/-- PARTIAL (towards "clean ConnectionDone after an orderly close"): `doWrite` answers CONNECTION_DONE only
-    if loseConnection had been requested and this very call emptied the buffers — with the stream invariant:
-    everything the application wrote has been handed to the kernel. -/
-theorem done_from_doWrite_only_after_flush_partial (p : Params) (v : View) (n : Nat)
+/-- `doWrite` answers CONNECTION_DONE only if loseConnection had been requested and this very call emptied the
+    buffers — with the stream invariant: everything the application wrote has been handed to the kernel. -/
+theorem done_from_doWrite_only_after_flush (p : Params) (v : View) (n : Nat)
     (hd : (doWrite p v n).1 = some .done) :
     v.c.disconnecting = true ∧ pending (doWrite p v n).2.c = [] :=
   doWrite_done p v n hd
+
+
+/-! ### the liveness / clean-close half, under the one-closer discipline -/
+
+/-- the peer of `w` -/
+abbrev peer (w : Side) : Side := swapSide w
+
+/-- **Cross-endpoint invariants (loseConnection).**  In every state a disciplined schedule reaches after the
+    close: no RST, FIN only after the flush, the peer's socket closes only after EOF, nothing discarded,
+    pending bytes ⇒ writer registered.  (Closer on side A; side B is the mirror image, `lose_A`/`swapSys`.) -/
+theorem discipline_invariants_lose (p : Params) (hp : 0 < p.sendLimit) (hc : 0 < p.cap) (ha hb : Bool)
+    (ra rb : List AppOp) (hcfg : closeOk hb rb) (pre post : List Ev)
+    (hpre : ∀ ev ∈ pre, preEv .A ev = true) (hpost : ∀ ev ∈ post, noise ev = true)
+    (hrd : (run (start p ha hb ra rb) pre).b.reading = true) :
+    let s := run (start p ha hb ra rb) (pre ++ .app .A .lose :: post)
+    DiscFacts s.a s.b s.ka s.kb :=
+  lose_facts false _ _ _ _ (lose_A p hp hc ha hb ra rb hcfg pre post hpre hpost hrd).1
+
+/-- **Cross-endpoint invariants (half-close).**  As above; here each socket closes only after EOF. -/
+theorem discipline_invariants_half (p : Params) (hp : 0 < p.sendLimit) (hc : 0 < p.cap) (ha hb : Bool)
+    (ra rb : List AppOp) (hcfa : closeOk ha ra) (hcfg : replyOk hb rb) (pre post : List Ev)
+    (hpre : ∀ ev ∈ pre, preEv .A ev = true) (hpost : ∀ ev ∈ post, noise ev = true)
+    (hra : (run (start p ha hb ra rb) pre).a.reading = true)
+    (hrd : (run (start p ha hb ra rb) pre).b.reading = true) :
+    let s := run (start p ha hb ra rb) (pre ++ .app .A .loseWrite :: post)
+    DiscFacts s.a s.b s.ka s.kb ∧ (s.ka.closed = true → s.ka.inFin = true) :=
+  half_facts _ _ _ _ (half_A p hp hc ha hb ra rb hcfa hcfg pre post hpre hpost hra hrd).1
+
+/-- **Pending bytes ⇒ writer registered**, in every state before the close operation. -/
+theorem writer_registered_before_close (p : Params) (hp : 0 < p.sendLimit) (ha hb : Bool) (ra rb : List AppOp)
+    (pre : List Ev) (hpre : ∀ ev ∈ pre, preEv .A ev = true) :
+    let s := run (start p ha hb ra rb) pre
+    (pending s.a ≠ [] → s.a.writing = true) ∧ pending s.b = [] :=
+  have h := P0_run pre _ (by simpa [fresh, Sys.init] using hp) hpre (P0_fresh p ha hb ra rb)
+  ⟨h.1, h.2.2.2.2.2.2.2.1⟩
+
+/-- **The progress measure.**  A fair round started in a non-quiescent state of a disciplined run (closer `w`)
+    strictly decreases `mu` and stays inside the discipline's invariant. -/
+theorem fair_round_decreases_measure (w : Side) (s : Sys) (h : FInvW w s) (hq : s.quiescent = false) :
+    FInvW w (run s fairRound) ∧ mu (run s fairRound) < mu s :=
+  fairRound_dec (FInvW w) (roundOK_W w) s h hq
+
+/-- **Orderly close, any quiescent state**: whatever readiness reports follow the loseConnection, if the system
+    is at rest then both protocols were told ConnectionDone exactly once and the reader has every byte. -/
+theorem loseConnection_at_rest (p : Params) (hp : 0 < p.sendLimit) (hc : 0 < p.cap) (w : Side) (ha hb : Bool)
+    (ra rb : List AppOp) (hcfg : match w with | .A => closeOk hb rb | .B => closeOk ha ra) (pre post : List Ev)
+    (hpre : ∀ ev ∈ pre, preEv w ev = true) (hpost : ∀ ev ∈ post, noise ev = true)
+    (hrd : (connOf (run (start p ha hb ra rb) pre) (peer w)).reading = true) :
+    let s := run (start p ha hb ra rb) (pre ++ .app w .lose :: post)
+    s.quiescent = true → s.a.lost = [.done] ∧ s.b.lost = [.done] ∧ s.b.received = s.a.accepted ∧
+      s.a.received = s.b.accepted :=
+  lose_any p hp hc w ha hb ra rb hcfg pre post hpre hpost hrd
+
+/-- **Orderly close, liveness**: the fair completion (`runFair`, fuel ≥ `mu`) of a disciplined schedule with
+    loseConnection is quiescent, each protocol's connectionLost was called exactly once with ConnectionDone, and
+    each side received exactly the bytes the other wrote. -/
+theorem loseConnection_clean_close (p : Params) (hp : 0 < p.sendLimit) (hr : 0 < p.recvMax) (hc : 0 < p.cap)
+    (w : Side) (ha hb : Bool) (ra rb : List AppOp)
+    (hcfg : match w with | .A => closeOk hb rb | .B => closeOk ha ra) (pre post : List Ev)
+    (hpre : ∀ ev ∈ pre, preEv w ev = true) (hpost : ∀ ev ∈ post, noise ev = true)
+    (hrd : (connOf (run (start p ha hb ra rb) pre) (peer w)).reading = true) (fuel : Nat)
+    (hf : mu (run (start p ha hb ra rb) (pre ++ .app w .lose :: post)) ≤ fuel) :
+    let s := runFair fuel (run (start p ha hb ra rb) (pre ++ .app w .lose :: post))
+    s.quiescent = true ∧ s.a.lost = [.done] ∧ s.b.lost = [.done] ∧ s.b.received = s.a.accepted ∧
+      s.a.received = s.b.accepted := by
+  intro s
+  have hI := finv_lose p hp hr hc w ha hb ra rb hcfg pre post hpre hpost hrd
+  have hq := (runFair_quiescent _ (roundOK_W w) fuel _ hI hf).1
+  obtain ⟨post', hn, e⟩ := runFair_after fuel (start p ha hb ra rb) pre post (.app w .lose) hpost
+  have hq' : (run (start p ha hb ra rb) (pre ++ .app w .lose :: post')).quiescent = true := by rw [← e]; exact hq
+  have := lose_any p hp hc w ha hb ra rb hcfg pre post' hpre hn hrd hq'
+  show s.quiescent = true ∧ _
+  rw [show s = run (start p ha hb ra rb) (pre ++ .app w .lose :: post') from e]
+  exact ⟨hq', this⟩
+
+/-- **Half-close, any quiescent state.** -/
+theorem halfClose_at_rest (p : Params) (hp : 0 < p.sendLimit) (hc : 0 < p.cap) (w : Side) (ha hb : Bool)
+    (ra rb : List AppOp)
+    (hcfg : match w with | .A => closeOk ha ra ∧ replyOk hb rb | .B => closeOk hb rb ∧ replyOk ha ra)
+    (pre post : List Ev)
+    (hpre : ∀ ev ∈ pre, preEv w ev = true) (hpost : ∀ ev ∈ post, noise ev = true)
+    (hra : (run (start p ha hb ra rb) pre).a.reading = true)
+    (hrb : (run (start p ha hb ra rb) pre).b.reading = true) :
+    let s := run (start p ha hb ra rb) (pre ++ .app w .loseWrite :: post)
+    s.quiescent = true → s.a.lost = [.done] ∧ s.b.lost = [.done] ∧ s.b.received = s.a.accepted ∧
+      s.a.received = s.b.accepted :=
+  half_any p hp hc w ha hb ra rb hcfg pre post hpre hpost hra hrb
+
+/-- **Half-close, liveness**: after loseWriteConnection the fair completion is quiescent, both reasons are
+    ConnectionDone, the peer got everything the initiator wrote and the initiator got the whole reply. -/
+theorem halfClose_clean_close (p : Params) (hp : 0 < p.sendLimit) (hr : 0 < p.recvMax) (hc : 0 < p.cap)
+    (w : Side) (ha hb : Bool) (ra rb : List AppOp)
+    (hcfg : match w with | .A => closeOk ha ra ∧ replyOk hb rb | .B => closeOk hb rb ∧ replyOk ha ra)
+    (pre post : List Ev)
+    (hpre : ∀ ev ∈ pre, preEv w ev = true) (hpost : ∀ ev ∈ post, noise ev = true)
+    (hra : (run (start p ha hb ra rb) pre).a.reading = true)
+    (hrb : (run (start p ha hb ra rb) pre).b.reading = true) (fuel : Nat)
+    (hf : mu (run (start p ha hb ra rb) (pre ++ .app w .loseWrite :: post)) ≤ fuel) :
+    let s := runFair fuel (run (start p ha hb ra rb) (pre ++ .app w .loseWrite :: post))
+    s.quiescent = true ∧ s.a.lost = [.done] ∧ s.b.lost = [.done] ∧ s.b.received = s.a.accepted ∧
+      s.a.received = s.b.accepted := by
+  intro s
+  have hI := finv_half p hp hr hc w ha hb ra rb hcfg pre post hpre hpost hra hrb
+  have hq := (runFair_quiescent _ (roundOK_W w) fuel _ hI hf).1
+  obtain ⟨post', hn, e⟩ := runFair_after fuel (start p ha hb ra rb) pre post (.app w .loseWrite) hpost
+  have hq' : (run (start p ha hb ra rb) (pre ++ .app w .loseWrite :: post')).quiescent = true := by
+    rw [← e]; exact hq
+  have := half_any p hp hc w ha hb ra rb hcfg pre post' hpre hn hra hrb hq'
+  show s.quiescent = true ∧ _
+  rw [show s = run (start p ha hb ra rb) (pre ++ .app w .loseWrite :: post') from e]
+  exact ⟨hq', this⟩
+
+/-- **Abort, any quiescent state.** -/
+theorem abortConnection_at_rest (p : Params) (hp : 0 < p.sendLimit) (w : Side) (ha hb : Bool) (ra rb : List AppOp)
+    (pre post : List Ev)
+    (hpre : ∀ ev ∈ pre, preEv w ev = true) (hpost : ∀ ev ∈ post, noise ev = true)
+    (hrd : (connOf (run (start p ha hb ra rb) pre) (peer w)).reading = true) :
+    let s := run (start p ha hb ra rb) (pre ++ .app w .abort :: post)
+    s.quiescent = true → (connOf s w).lost = [.aborted] ∧ (connOf s (peer w)).lost = [.lost] :=
+  abort_any p hp w ha hb ra rb pre post hpre hpost hrd
+
+/-- **Abort, liveness**: after abortConnection the fair completion is quiescent; the aborting side's protocol
+    was told ConnectionAborted (once), the other side exactly one reason (ConnectionLost); what the reader got is
+    a prefix of what was written (`peer_receives_prefix_of_written`, valid in every state). -/
+theorem abortConnection_close (p : Params) (hp : 0 < p.sendLimit) (hr : 0 < p.recvMax)
+    (w : Side) (ha hb : Bool) (ra rb : List AppOp) (pre post : List Ev)
+    (hpre : ∀ ev ∈ pre, preEv w ev = true) (hpost : ∀ ev ∈ post, noise ev = true)
+    (hrd : (connOf (run (start p ha hb ra rb) pre) (peer w)).reading = true) (fuel : Nat)
+    (hf : mu (run (start p ha hb ra rb) (pre ++ .app w .abort :: post)) ≤ fuel) :
+    let s := runFair fuel (run (start p ha hb ra rb) (pre ++ .app w .abort :: post))
+    s.quiescent = true ∧ (connOf s w).lost = [.aborted] ∧ (connOf s (peer w)).lost = [.lost] ∧
+      s.b.received <+: s.a.accepted ∧ s.a.received <+: s.b.accepted := by
+  intro s
+  have hI := finv_abort p hp hr w ha hb ra rb pre post hpre hpost hrd
+  have hq := (runFair_quiescent _ (roundOK_W w) fuel _ hI hf).1
+  obtain ⟨post', hn, e⟩ := runFair_after fuel (start p ha hb ra rb) pre post (.app w .abort) hpost
+  have hq' : (run (start p ha hb ra rb) (pre ++ .app w .abort :: post')).quiescent = true := by rw [← e]; exact hq
+  have := abort_any p hp w ha hb ra rb pre post' hpre hn hrd hq'
+  have hpre' := peer_receives_prefix_of_written p ha hb ra rb (pre ++ .app w .abort :: post')
+  show s.quiescent = true ∧ _
+  rw [show s = run (start p ha hb ra rb) (pre ++ .app w .abort :: post') from e]
+  exact ⟨hq', this.1, this.2, hpre'⟩
+
+/-- **`accepted` is what was written.**  For a disciplined schedule with any close operation of side `w` whose
+    protocol does not write from readConnectionLost: the closer's `accepted` is the concatenation of the bytes
+    passed to write()/writeSequence() by the schedule; a peer that does not write there has accepted nothing. -/
+theorem closer_accepted_is_written (p : Params) (hp : 0 < p.sendLimit) (w : Side) (ha hb : Bool) (ra rb : List AppOp)
+    (hcw : match w with | .A => noWrites ha ra | .B => noWrites hb rb)
+    (pre post : List Ev) (op : AppOp) (hop : AppOp.isWrite op = false)
+    (hpre : ∀ ev ∈ pre, preEv w ev = true) (hpost : ∀ ev ∈ post, noise ev = true) :
+    let s := run (start p ha hb ra rb) (pre ++ .app w op :: post)
+    (connOf s w).accepted = written w pre ∧
+    ((match w with | .A => noWrites hb rb | .B => noWrites ha ra) → (connOf s (peer w)).accepted = []) :=
+  accepted_any p hp w ha hb ra rb hcw pre post op hop hpre hpost
+
+/-- **loseConnection delivers exactly the bytes written** (closer on side A; side B is the mirror image): at the
+    end of the fair completion B's protocol holds `written .A pre`, A's nothing, both were told ConnectionDone. -/
+theorem loseConnection_delivers_written (p : Params) (hp : 0 < p.sendLimit) (hr : 0 < p.recvMax) (hc : 0 < p.cap)
+    (ha hb : Bool) (ra rb : List AppOp) (hca : noWrites ha ra) (hcfg : closeOk hb rb) (pre post : List Ev)
+    (hpre : ∀ ev ∈ pre, preEv .A ev = true) (hpost : ∀ ev ∈ post, noise ev = true)
+    (hrd : (run (start p ha hb ra rb) pre).b.reading = true) (fuel : Nat)
+    (hf : mu (run (start p ha hb ra rb) (pre ++ .app .A .lose :: post)) ≤ fuel) :
+    let s := runFair fuel (run (start p ha hb ra rb) (pre ++ .app .A .lose :: post))
+    s.quiescent = true ∧ s.a.lost = [.done] ∧ s.b.lost = [.done] ∧ s.b.received = written .A pre ∧
+      s.a.received = [] := by
+  intro s
+  have h := loseConnection_clean_close p hp hr hc .A ha hb ra rb hcfg pre post hpre hpost hrd fuel hf
+  obtain ⟨post', hn, e⟩ := runFair_after fuel (start p ha hb ra rb) pre post (.app .A .lose) hpost
+  have hacc := closer_accepted_is_written p hp .A ha hb ra rb hca pre post' .lose rfl hpre hn
+  have hs : s = run (start p ha hb ra rb) (pre ++ .app .A .lose :: post') := e
+  obtain ⟨h1, h2, h3, h4, h5⟩ := h
+  refine ⟨h1, h2, h3, ?_, ?_⟩
+  · rw [show s.b.received = s.a.accepted from h4, hs]; exact hacc.1
+  · rw [show s.a.received = s.b.accepted from h5, hs]; exact hacc.2 (closeOk_noWrites hb rb hcfg)
+
+/-- **Half-close delivers exactly the bytes written** to the peer (closer on side A); what the initiator receives
+    is exactly what the peer's reply was accepted as (`halfClose_clean_close`). -/
+theorem halfClose_delivers_written (p : Params) (hp : 0 < p.sendLimit) (hr : 0 < p.recvMax) (hc : 0 < p.cap)
+    (ha hb : Bool) (ra rb : List AppOp) (hcfa : closeOk ha ra) (hcfg : replyOk hb rb) (pre post : List Ev)
+    (hpre : ∀ ev ∈ pre, preEv .A ev = true) (hpost : ∀ ev ∈ post, noise ev = true)
+    (hra : (run (start p ha hb ra rb) pre).a.reading = true)
+    (hrb : (run (start p ha hb ra rb) pre).b.reading = true) (fuel : Nat)
+    (hf : mu (run (start p ha hb ra rb) (pre ++ .app .A .loseWrite :: post)) ≤ fuel) :
+    let s := runFair fuel (run (start p ha hb ra rb) (pre ++ .app .A .loseWrite :: post))
+    s.quiescent = true ∧ s.a.lost = [.done] ∧ s.b.lost = [.done] ∧ s.b.received = written .A pre ∧
+      s.a.received = s.b.accepted := by
+  intro s
+  have h := halfClose_clean_close p hp hr hc .A ha hb ra rb ⟨hcfa, hcfg⟩ pre post hpre hpost hra hrb fuel hf
+  obtain ⟨post', hn, e⟩ := runFair_after fuel (start p ha hb ra rb) pre post (.app .A .loseWrite) hpost
+  have hacc := closer_accepted_is_written p hp .A ha hb ra rb (closeOk_noWrites ha ra hcfa) pre post' .loseWrite rfl
+    hpre hn
+  have hs : s = run (start p ha hb ra rb) (pre ++ .app .A .loseWrite :: post') := e
+  obtain ⟨h1, h2, h3, h4, h5⟩ := h
+  refine ⟨h1, h2, h3, ?_, h5⟩
+  rw [show s.b.received = s.a.accepted from h4, hs]; exact hacc.1
 
 /-! ### non-vacuity: concrete schedules (tiny kernel so that every write is partial) -/
 
@@ -160,10 +374,35 @@ example : let s := run (start tiny true true [.lose] [.write [10, 11, 12], .lose
 /-- the hypothesis of `no_data_after_connectionLost` is met and the continuation is not idle -/
 example : (run (start tiny false false [] []) demoLose).b.lost ≠ [] := by decide
 
-/-- `done_from_doWrite_only_after_flush_partial` is not vacuous: the last doWrite of `demoLose` returns done -/
+/-- `done_from_doWrite_only_after_flush` is not vacuous: the last doWrite of `demoLose` returns done -/
 def flushing : Conn :=
   { disconnecting := true, writing := true, reading := false, dataBuffer := [7, 8], accepted := [7, 8] }
 
 example : (doWrite tiny ⟨flushing, {}, {}⟩ 9).1 = some .done := by decide
+
+/-! non-vacuity of the liveness theorems: the demo schedules are disciplined (hypotheses hold), the measure is a
+    concrete number, and the conclusions are the non-trivial values computed above -/
+
+def demoPre : List Ev :=
+  [.app .A (.write [1, 2, 3, 4, 5, 6, 7, 8]), .io .A false true false 0 3, .io .B true false false 2 0]
+
+example : (∀ ev ∈ demoPre, preEv .A ev = true) ∧ (∀ ev ∈ (fairRound ++ fairRound), noise ev = true) ∧
+    (run (start tiny false false [] []) demoPre).b.reading = true := by decide
+example : mu (run (start tiny false false [] []) (demoPre ++ .app .A .lose :: [])) ≤ 40 := by decide
+example : let s := runFair 40 (run (start tiny false false [] []) (demoPre ++ .app .A .lose :: []))
+    s.quiescent = true ∧ s.a.lost = [.done] ∧ s.b.lost = [.done] ∧ s.b.received = [1, 2, 3, 4, 5, 6, 7, 8] := by decide
+/-- the half-close with a reply is disciplined: `replyOk` holds for the replying peer -/
+example : replyOk true [.write [10, 11, 12], .lose] := fun _ => ⟨[.write [10, 11, 12]], by decide, rfl⟩
+example : let s := runFair 40 (run (start tiny true true [.lose] [.write [10, 11, 12], .lose])
+      ([.app .A (.writeSeq [[1, 2], [], [3]])] ++ .app .A .loseWrite :: []))
+    s.quiescent = true ∧ s.a.lost = [.done] ∧ s.b.lost = [.done] ∧ s.b.received = [1, 2, 3] ∧
+      s.a.received = [10, 11, 12] := by decide
+example : let s := runFair 40 (run (start tiny false false [] [])
+      ([.app .B (.write [1, 2, 3, 4, 5, 6, 7, 8]), .io .B false true false 0 3] ++ .app .B .abort :: []))
+    s.quiescent = true ∧ s.b.lost = [.aborted] ∧ s.a.lost = [.lost] ∧ s.a.received = [1, 2, 3] := by decide
+example : written .A demoPre = [1, 2, 3, 4, 5, 6, 7, 8] := by decide
+/-- a non-quiescent disciplined state and its measure going down over one fair round -/
+example : let s := run (start tiny false false [] []) (demoPre ++ .app .A .lose :: [])
+    s.quiescent = false ∧ mu (run s fairRound) < mu s := by decide
 
 end TwistedProps.C15
